@@ -300,7 +300,11 @@ class Runner:
         if tr is None:
             raise RuntimeError("no trace")
         if op == "subtrace":
-            layer = p if p["k"] == "static" else p["subs"][0]
+            if p["k"] == "switch":          # the branch that executed (documented: the index is clamped)
+                j = min(max(int(cur_argsV[0]["i"]), 0), len(p["subs"]) - 1)
+                layer = p["subs"][j]
+            else:
+                layer = p if p["k"] == "static" else p["subs"][0]
             site = layer["sites"][rq["idx"] % len(layer["sites"])]
             ev["extra"] = site["addr"]
             ev["post"] = ev["pre"]
